@@ -657,8 +657,9 @@ seed("n-c14-neg-placement", "C14", CT, "Cmplx::new(self.real.cos() * self.imag.c
 seed("c20-setcol-rows", "C20", OPS, 'if self.cols <= col { panic!( "Matrix range error in set_col" ); }',
      'if self.rows <= col { panic!( "Matrix range error in set_col" ); }', "reject/matrix::Matrix<T>::set_col", "the original defect")
 
-seed("c12-degree-drop-removed", "C12", PA, "            if lead + r.coeffs[ top ] == lead { r.coeffs[ top ] = T::zero(); }\n", "", "degree-drops", "the original defect")
-seed("c12-absorption-wrong-lead", "C12", PA, "            if lead + r.coeffs[ top ] == lead { r.coeffs[ top ] = T::zero(); }", "            if r.coeffs[ top ] + r.coeffs[ top ] == r.coeffs[ top ] { r.coeffs[ top ] = T::zero(); }", "degree-drops", "tests the residue against itself: only true for zero")
+seed("c12-degree-drop-removed", "C12", PA, "            r.coeffs[ top ] = T::zero();\n", "", "degree-drops", "the original defect")
+seed("c12-absorption-test", "C12", PA, "            r.coeffs[ top ] = T::zero();\n", "            if lead + r.coeffs[ top ] == lead { r.coeffs[ top ] = T::zero(); }\n", "degree-drops", "the original defect (second form: component-wise absorption test, stalls for Complex)")
+seed("c12-clear-if-differs", "C12", PA, "            r.coeffs[ top ] = T::zero();\n", "            if r.coeffs[ top ] != lead { r.coeffs[ top ] = T::zero(); }\n", "degree-drops", "value test on the residue")
 
 # ---------------------------------------------------------------- later additions
 seed("c03-fillband-neg-unchecked", "C03", OPS, "            if (i as usize) < self.cols &&  i >= 0 {", "            if (i as usize) < self.cols {", "accessor/fill_band", "negative column wraps to a huge usize; only the upper test remains")
